@@ -37,6 +37,7 @@ Definition run (op : Z) (arg : sx) : sx :=
   | 124 => run_krylov_dims arg
   | 130 => run_sweep_trace arg
   | 131 => run_prog_ops arg
+  | 132 => run_prog12_ops arg
   | 140 => run_tdvp_steps arg
   | 141 => run_tdvp_order arg
   | 142 => run_tdvp_half arg
